@@ -32,7 +32,10 @@ fn main() {
     let mut rep = Report { prop: prop.clone(), tier: tier.clone(), ..Default::default() };
     let quick = tier == "quick";
     match prop.as_str() {
-        "C09" => push(&mut rep, mcx::e4::c09(progs::PROGS, &decls, if quick { 3 } else { 4 })),
+        "C09" => {
+            push(&mut rep, mcx::e4::c09(progs::PROGS, &decls, if quick { 3 } else { 4 }));
+            push(&mut rep, mcx::e3_long::c09_values(if quick { 4 } else { 5 }));
+        }
         "C11" => push(&mut rep, mcx::e4::c11(progs::PROGS, &decls, if quick { 3 } else { 4 }, 6)),
         "C12" => push(&mut rep, mcx::e4::c12(progs::PROGS, &decls, if quick { 2 } else { 3 })),
         "C16" => push(&mut rep, mcx::e4::c09(progs::PROGS, &decls, 3)),
